@@ -159,10 +159,11 @@ def nodeCert (n kind : String) : Option ServerCert := do
   let own ← nodeName n
   let peer ← nodeName (otherNode n)
   match kind with
-  | "good" => some { sans := [own, snExample, loopback], byTrustedCA := true }
-  | "peer" => some { sans := [peer, snExample, loopback], byTrustedCA := true }
-  | "other" => some { sans := [strBytes "other.verif.example"], byTrustedCA := true }
-  | "untrusted" => some { sans := [own, snExample, loopback], byTrustedCA := false }
+  | "good" => some { sans := [own, snExample, loopback], signer := .fileCA }
+  | "poolgood" => some { sans := [own, snExample, loopback], signer := .poolCA }
+  | "peer" => some { sans := [peer, snExample, loopback], signer := .fileCA }
+  | "other" => some { sans := [strBytes "other.verif.example"], signer := .fileCA }
+  | "rogue" => some { sans := [own, snExample, loopback], signer := .rogue }
   | _ => none
 
 /-- `nil` or `I<0|1>S<0|1>R<0|1>` -/
